@@ -21,7 +21,8 @@ LEVEL = "fault_enumeration"
 RUNS = {"quick": 2500, "thorough": 50000}
 CHUNK = {"quick": 20, "thorough": 100}
 PROBES = [f"residue_{i}" for i in range(16)] + ["custom_iv", "multi_frame_stream", "empty_plaintext", "keyflip_sweep",
-                                                "session_population", "verify_false_no_hmac", "large_packet", "large_packet_multiple_of_64k"]
+                                                "session_population", "verify_false_no_hmac", "large_packet", "large_packet_multiple_of_64k",
+                                                "keys_from_seed", "keys_from_metadata", "zero_iv", "frame_length_256"]
 RULE = ("seeded plans: 6-14 packets with plaintext length 0..80 (every residue mod 16 is drawn; 30% of the plans add one large "
         "packet at a boundary length up to 256 KiB with a sampled fault set), random 16-byte AES/HMAC "
         "keys and IVs (default IV half of the time); per packet EVERY single-bit flip of ciphertext||signature, EVERY "
@@ -43,8 +44,20 @@ EXHAUSTIVE_SCOPE = ("per packet of up to 80 plaintext bytes the single-bit-flip 
                     "large packet (255 bytes - 256 KiB, boundary lengths) that 30% of the plans carry gets a sampled fault set")
 
 
-BIG_LENGTHS = [255, 256, 257, 1023, 1024, 1025, 4095, 4096, 4097, 16383, 16384, 16385, 32768, 65519, 65520, 65535, 65536, 65537,
+BIG_LENGTHS = [223, 224, 231, 239, 240, 255, 256, 257, 1023, 1024, 1025, 4095, 4096, 4097, 16383, 16384, 16385, 32768, 65519, 65520, 65535, 65536, 65537,
                65552, 131071, 131072, 131073, 196608, 262144]
+
+
+def _iv(rng) -> bytes:
+    # "for all 16-byte IVs": mostly random, some at the edges of the value space
+    r = rng.random()
+    if r < 0.08:
+        return bytes(16)
+    if r < 0.12:
+        return b"\xff" * 16
+    if r < 0.16:
+        return bytes(15) + b"\x01"
+    return bytes(rng.getrandbits(8) for _ in range(16))
 
 
 def generate(rng, tier, index):
@@ -55,20 +68,21 @@ def generate(rng, tier, index):
     shared = None
     if rng.random() < 0.5:
         shared = (hx(bytes(rng.getrandbits(8) for _ in range(16))), hx(bytes(rng.getrandbits(8) for _ in range(16))),
-                  None if rng.random() < 0.5 else hx(bytes(rng.getrandbits(8) for _ in range(16))))
+                  None if rng.random() < 0.5 else hx(_iv(rng)))
     for _ in range(rng.randint(6, 14)):
         n = rng.choice([rng.randint(0, 80), rng.randint(0, 80), 16 * rng.randint(0, 4) + rng.randint(0, 15), 0, 16, 15, 17])
         pkts.append({"pt": hx(bytes(rng.getrandbits(8) for _ in range(n))),
                      "aes": hx(bytes(rng.getrandbits(8) for _ in range(16))),
                      "hmac": hx(bytes(rng.getrandbits(8) for _ in range(16))),
-                     "iv": None if rng.random() < 0.5 else hx(bytes(rng.getrandbits(8) for _ in range(16))),
+                     "iv": None if rng.random() < 0.5 else hx(_iv(rng)),
                      "wrong_keys": [hx(bytes(rng.getrandbits(8) for _ in range(16))) for _ in range(8)]})
         if shared:
             pkts[-1]["aes"], pkts[-1]["hmac"], pkts[-1]["iv"] = shared
     if rng.random() < 0.3:
         # one large packet per plan at a boundary length (powers of two and their neighbours, multiples of 4 KiB / 64 KiB):
         # its plaintext is described by (seed, length), its fault space is sampled, not enumerated
-        n = rng.choice(BIG_LENGTHS + [4096 * rng.randint(1, 48), 65536 * rng.randint(1, 4) + rng.choice([-16, -1, 0, 0, 1, 15, 16])])
+        n = rng.choice(BIG_LENGTHS + [4096 * rng.randint(1, 48), 65536 * rng.randint(1, 4) + rng.choice([-16, -1, 0, 0, 1, 15, 16]),
+                                      rng.randint(81, 700), rng.randint(81, 700), 224 + rng.randint(0, 15), 65504 + rng.randint(0, 15)])
         pkts.append({"pt_gen": {"seed": rng.getrandbits(24), "len": n}, "pt": None,
                      "aes": hx(bytes(rng.getrandbits(8) for _ in range(16))),
                      "hmac": hx(bytes(rng.getrandbits(8) for _ in range(16))),
@@ -109,6 +123,10 @@ def execute(plan: dict) -> Result:
         res.probes[f"residue_{len(pt) % 16}"] += 1
         if iv is not None:
             res.probes["custom_iv"] += 1
+            if not any(iv):
+                res.probes["zero_iv"] += 1
+        if 224 <= len(pt) <= 239:
+            res.probes["frame_length_256"] += 1
         if not pt:
             res.probes["empty_plaintext"] += 1
         k = 16 - len(pt) % 16
@@ -116,10 +134,18 @@ def execute(plan: dict) -> Result:
         if pi < 6 and not big:
             # session keys as the library derives them from ONE seed per plan, under this packet's IV
             import hashlib
-            seed_ = hashlib.sha256(plan["packets"][0]["aes"].encode()).digest()[:16]
+            # (every third packet: another seed; odd packets: through the metadata of ONE beacon id - a restarted Beacon keeps
+            # its id and draws a new seed)
+            seed_ = hashlib.sha256(plan["packets"][0]["aes"].encode() + (b"+" if pi % 3 == 2 else b"")).digest()[:16]
             d_ = hashlib.sha256(seed_).digest()
             try:
-                ks = BeaconKeys.from_aes_rand(seed_, iv=riv) if iv is not None else BeaconKeys.from_aes_rand(seed_)
+                if pi % 2:
+                    from dissect.cobaltstrike.c_c2 import BeaconMetadata
+                    md_ = BeaconMetadata(magic=0xBEEF, bid=0x1234ABCD, aes_rand=seed_)
+                    ks = BeaconKeys.from_beacon_metadata(md_, iv=riv) if iv is not None else BeaconKeys.from_beacon_metadata(md_)
+                    res.probes["keys_from_metadata"] += 1
+                else:
+                    ks = BeaconKeys.from_aes_rand(seed_, iv=riv) if iv is not None else BeaconKeys.from_aes_rand(seed_)
                 if (ks.aes_key, ks.hmac_key, ks.iv) != (d_[:16], d_[16:], riv):
                     res.violate(("C05", "session_keys_from_seed", "iv" if ks.iv != riv else "keys"),
                                 f"BeaconKeys.from_aes_rand(seed, iv={'given' if iv else 'default'}) -> iv {ks.iv!r}, expected {riv!r}; keys "
